@@ -163,3 +163,15 @@ def rel_err(got, want, floor=1.0, angles=()):
             return float("inf")
         worst = max(worst, abs(g - w) / max(abs(w), f))
     return worst
+
+
+def cov_err(got, want):
+    """max |got_ij - want_ij| / sqrt(want_ii want_jj): error of each term in units of its own sigmas"""
+    got = np.asarray(got, float).reshape(6, 6)
+    want = np.asarray(want, float).reshape(6, 6)
+    if not (np.all(np.isfinite(got)) and np.all(np.isfinite(want))):
+        return 0.0 if np.array_equal(got, want, equal_nan=True) else float("inf")
+    sig = np.sqrt(np.abs(np.diag(want)))
+    scale = np.outer(sig, sig)
+    scale[scale == 0] = np.max(scale) or 1.0
+    return float(np.max(np.abs(got - want) / scale))
